@@ -2,7 +2,9 @@ package wconn
 
 import (
 	"context"
+	"errors"
 	"fmt"
+	"os"
 	"time"
 
 	"github.com/postalsys/muti-metroo/internal/identity"
@@ -25,6 +27,8 @@ type rawDup struct {
 	gotAck  bool
 	sentOK  int // frames written without error after the hello
 	dialErr error
+	// the agent closed the connection right after the handshake
+	remoteClosed bool
 }
 
 func fakeOrigin(k int) identity.AgentID {
@@ -56,6 +60,16 @@ func markerFrames(claimed identity.AgentID, k int, marker [4]byte) []*protocol.F
 // attachDup dials node target's first listener, says hello as `claimed`, and
 // sends the frames either pipelined right behind the hello or after the ack.
 func (w *world) attachDup(target int, name string, claimed identity.AgentID, frames []*protocol.Frame, pipelined bool) *rawDup {
+	rd := w.stageDup(target, name, claimed)
+	if rd.dialErr == nil {
+		w.greetDup(rd, frames, pipelined)
+	}
+	return rd
+}
+
+// stageDup only dials and opens the control stream: the agent accepts the
+// transport connection and waits for the hello.
+func (w *world) stageDup(target int, name string, claimed identity.AgentID) *rawDup {
 	nd := w.m.Nodes[target]
 	lc := nd.Cfg.Listeners[0]
 	var tr *simtransport.Transport
@@ -68,7 +82,7 @@ func (w *world) attachDup(target int, name string, claimed identity.AgentID, fra
 		tr = simtransport.NewWebSocket()
 	}
 	rd := &rawDup{name: name, claimed: claimed}
-	w.m.OnNode(name, "attach-"+name, func() {
+	w.m.OnNode(name, "stage-"+name, func() {
 		ctx, cancel := context.WithTimeout(context.Background(), 10*time.Second)
 		defer cancel()
 		var err error
@@ -86,8 +100,16 @@ func (w *world) attachDup(target int, name string, claimed identity.AgentID, fra
 			return
 		}
 		rd.w = protocol.NewFrameWriter(rd.stream)
-		hello := &protocol.PeerHello{Version: protocol.ProtocolVersion, AgentID: claimed, Timestamp: uint64(time.Now().UnixNano()), DisplayName: name}
-		if err = rd.w.Write(&protocol.Frame{Type: protocol.FramePeerHello, StreamID: protocol.ControlStreamID, Payload: hello.Encode()}); err != nil {
+	})
+	return rd
+}
+
+// greetDup sends the hello (and the frames) on a staged connection and waits
+// for the ack.
+func (w *world) greetDup(rd *rawDup, frames []*protocol.Frame, pipelined bool) {
+	w.m.OnNode(rd.name, "greet-"+rd.name, func() {
+		hello := &protocol.PeerHello{Version: protocol.ProtocolVersion, AgentID: rd.claimed, Timestamp: uint64(time.Now().UnixNano()), DisplayName: rd.name}
+		if err := rd.w.Write(&protocol.Frame{Type: protocol.FramePeerHello, StreamID: protocol.ControlStreamID, Payload: hello.Encode()}); err != nil {
 			rd.dialErr = err
 			return
 		}
@@ -110,8 +132,14 @@ func (w *world) attachDup(target int, name string, claimed identity.AgentID, fra
 		if !pipelined {
 			send()
 		}
+		if rd.gotAck {
+			// an agent that rejects the connection closes it: the next read ends
+			rd.stream.SetReadDeadline(time.Now().Add(300 * time.Millisecond))
+			if _, err := r.Read(); err != nil && !errors.Is(err, os.ErrDeadlineExceeded) {
+				rd.remoteClosed = true
+			}
+		}
 	})
-	return rd
 }
 
 func (rd *rawDup) close() {
